@@ -12,10 +12,15 @@ def specs(tier):
     q = tier == 'quick'
     js = []
     for name, ops in (('queue2', (0, 1, 2, 0)), ('pqueue2', (0, 1, 2)), ('list', (0, 1, 4)), ('dict', (0, 1, 2)), ('set', (0, 1, 2)),
-                      ('counter', (0, 1)), ('all', (0, 1, 3, 4, 5, 7))):
+                      ('counter', (0, 1, 0)), ('all', (0, 1, 3, 4, 5, 7))):
         js.append(J('bat-%s:lagsnap3:S1H2R1' % name, 'battery_lagsnap', dict(n=3, consumers=name), dict(S=1, H=2, R=1), dict(ops=ops)))
         if name in ('queue2', 'dict', 'list') or not q:
             js.append(J('bat-%s:steady2:S3H1' % name, 'steady', dict(n=2, consumers=name), dict(S=2 if q else 3, H=1), dict(k=0)))
+    # the laggard holds filled batteries, the snapshot it installs holds emptied ones (three entries behind, so that
+    # the entries it lacks are no longer in the leader's compacted log)
+    for name, pre, ops in (('counter', (0,), (2, 2, 2)), ('list', (0,), (2, 2, 2)), ('dict', (0,), (4, 4, 4)), ('set', (0,), (2, 3, 3)), ('queue2', (0,), (2, 2, 2)),
+                           ('pqueue2', (0,), (2, 2, 2)), ('all', (1, 5, 7, 3), (2, 6, 8))):
+        js.append(J('bat-%s:lagsnap-emptied3:H2R1' % name, 'battery_lagsnap', dict(n=3, consumers=name), dict(H=2, R=1), dict(ops=ops, pre=pre)))
     if not q:
         js.append(J('bat-queue+dict:lagsnap3-chunk64:S1H2R1', 'battery_lagsnap', dict(n=3, consumers='queue+dict', chunk=64), dict(S=1, H=2, R=1),
                     dict(ops=(0, 2, 1))))
